@@ -166,6 +166,12 @@ def RandErr(seed, profile, dim, a=None, b=None):
                 r = random.Random(seed ^ 0x5bd1e995)
                 self.hot = [r.random() for _ in range(dim)]
                 self.hot_dims = [k for k in range(dim) if r.random() < 0.7] or [r.randrange(dim)]
+                # "leaddim": one dimension (mostly a LATER one) runs ahead for a few steps, the others follow one after the other
+                self.lead = dim - 1 if r.random() < 0.6 else r.randrange(dim)
+                self.lead_steps = r.randint(2, 5)
+                self.followers = [k for k in range(dim) if k != self.lead]
+                r.shuffle(self.followers)
+                self.follow_steps = r.randint(1, 3)
 
             def calc_error(self, refine_object, norm, volume_weights=None):
                 self.calls += 1
@@ -187,6 +193,24 @@ def RandErr(seed, profile, dim, a=None, b=None):
                 if p == "altdim":
                     k = getattr(refine_object, "this_dim", 0)
                     return rng.random() if k == self.step % self.dim else 0.0
+                if p == "leaddim":
+                    k = getattr(refine_object, "this_dim", None)
+                    if k is None:
+                        return rng.random()
+                    st = self.step
+                    if st < self.lead_steps:
+                        active = self.lead
+                    elif self.followers and st < self.lead_steps + self.follow_steps * len(self.followers):
+                        active = self.followers[(st - self.lead_steps) // self.follow_steps]
+                    else:
+                        return rng.random()
+                    if k != active:
+                        return 0.0
+                    # a steep front in the active dimension: its deepest interval is refined in every step (its maximum level grows)
+                    t = self.a[k] + self.hot[k] * (self.b[k] - self.a[k])
+                    lo, hi = refine_object.start, refine_object.end
+                    dist = 0.0 if lo <= t <= hi else min(abs(t - lo), abs(t - hi)) / (self.b[k] - self.a[k])
+                    return 1.0 / (1e-3 + dist)
                 if p in ("hotspot", "fronts"):
                     k = getattr(refine_object, "this_dim", None)
                     if k is None:  # box shaped objects
@@ -225,7 +249,7 @@ def RandErr(seed, profile, dim, a=None, b=None):
     return _ERR_CLASSES["RandErr"](seed, profile, dim, a, b)
 
 
-ERR_PROFILES = ["uniform", "sparse", "ties", "equal", "zeros", "single", "altdim", "hotspot", "real"]
+ERR_PROFILES = ["uniform", "sparse", "ties", "equal", "zeros", "single", "altdim", "hotspot", "real", "leaddim"]
 
 
 # ---- observers ---------------------------------------------------------------------------------------
